@@ -70,6 +70,15 @@ func models(c *vf.Ctx) []*chain.Model {
 			mc.H += 3
 		}
 		ms = append(ms, mc)
+		if sp.Require > 3 {
+			// a v1 contract formed and revised inside one block, and its later life
+			mi := &chain.Model{Name: "v1inblock", Spec: sp, Opt: opt, Menu: chain.V1InBlockMenu, H: 7, D: 3, K: 1, R: 1}
+			if sp.Name == "mixed" {
+				mi.SkipStart = 3
+				mi.H += 3
+			}
+			ms = append(ms, mi)
+		}
 		// transaction combinatorics: one setup block, then every ordered pair (thorough: triple) of actions merged into
 		// ONE transaction
 		mm := &chain.Model{Name: "merged", Spec: sp, Opt: opt, Menu: chain.MergedMenu, H: 8, D: 2, K: 1, R: 0}
@@ -84,7 +93,7 @@ func models(c *vf.Ctx) []*chain.Model {
 	}
 	// the small combinatorics models first: under a loaded machine the budget must not starve them
 	sort.SliceStable(ms, func(i, j int) bool {
-		small := func(m *chain.Model) bool { return m.Name == "combo" || m.Name == "merged" }
+		small := func(m *chain.Model) bool { return m.Name == "combo" || m.Name == "merged" || m.Name == "v1inblock" }
 		return small(ms[i]) && !small(ms[j])
 	})
 	return ms
@@ -157,6 +166,8 @@ func replay(c *vf.Ctx, raw json.RawMessage) {
 			return chain.ComboMenu
 		case "merged":
 			return chain.MergedMenu3
+		case "v1inblock":
+			return chain.V1InBlockMenu
 		}
 		return nil
 	}, "C01", chain.Options{CheckForest: true, CheckLedger: true, CheckSupply: true, CheckProofs: true})
